@@ -126,10 +126,10 @@ var c03TA = &propTest{
 	prop: "C03", unit: "ta-capacity",
 	gen: func(t *rapid.T) *hcCase {
 		o := genOpts{Policy: polTA, MinOps: 12, MaxOps: 45, Reconfig: true, FillPools: true}
-		switch rapid.IntRange(0, 3).Draw(t, "flavour") {
-		case 0:
-			o.UpdateHeavy = true
-		case 1:
+		switch rapid.IntRange(0, 4).Draw(t, "flavour") {
+		case 0, 1:
+			o.UpdateHeavy, o.ExclHeavy = true, true
+		case 2:
 			// isolated CPUs, containers that want them, requests mixing whole CPUs with a
 			// fraction on nearly full pools: the paths that take CPUs and must give them back
 			o.Topo.WantIsolated, o.ExclHeavy, o.WantIsolatedCtrs = true, true, true
